@@ -41,6 +41,7 @@ type mdGen struct {
 	heads  map[string]int
 	seq    int
 	decor  []string // literal text around a word that must appear verbatim in the document
+	labels []string // words written in square brackets (literal text: the document defines no link for them)
 	math   bool     // formulas are enabled
 	vis    strings.Builder
 	seqs   []mdSeq // every inline sequence with the text a reader sees
@@ -99,6 +100,12 @@ func (g *mdGen) inline(block string, maxParts int) string {
 				// benign punctuation that is plain text in Markdown and has to come through verbatim: ampersands that are not
 				// character references, percent and dollar amounts, a reference with too many digits
 				d := w + []string{"&copy=1", "&lt b", " R&D", "&reg=eu&lang=en", " &#12345678;", " 50%", " AT&T", "&amp", " a&b;c"}[r.Intn(9)]
+				if r.Chance(1, 4) {
+					// a word in square brackets: without a link definition for it in THIS document it is literal text
+					d = "[" + w + "]"
+					g.labels = append(g.labels, w)
+					g.use("bracketed-word")
+				}
 				g.decor = append(g.decor, d)
 				sb.WriteString(d)
 				g.vis.WriteString(d)
@@ -412,6 +419,10 @@ func (g *mdGen) document() string {
 			g.use("thematic-break")
 		case k == 10 && g.gfm:
 			cols, rows := r.Range(1, 4), r.Range(0, 3) // rows = 0: a table that consists of its header row only
+			if r.Chance(1, 15) {
+				cols, rows = r.Range(58, 72), r.Range(0, 2) // a very wide table (around the 63 columns a word processor shows)
+				g.use("table-of-58-to-72-columns")
+			}
 			t := mdTable{}
 			var hdr, sep []string
 			var hrow []string
@@ -637,7 +648,18 @@ func c19Fidelity(c *core.Ctx, r *rng.R) *core.Result {
 			d, err = document.Open(out)
 			return
 		}
-		d, err = markdown.NewConverter(opts).ConvertString(src, nil)
+		conv := markdown.NewConverter(opts)
+		if len(g.labels) > 0 && r.Bool() {
+			// the converter has been used before, for a document that defines links for the very labels this one uses as plain
+			// bracketed text: a conversion depends on its own input only
+			primer := "Earlier document.\n\n"
+			for _, l := range g.labels {
+				primer += "[" + l + "]: http://example.com/earlier/" + l + "\n"
+			}
+			conv.ConvertString(primer+"\nSee ["+g.labels[0]+"].\n", nil)
+			res.Count("conversions_on_a_converter_used_before", 1)
+		}
+		d, err = conv.ConvertString(src, nil)
 	}); cg != nil {
 		res.Add("fidelity/convert/"+cg.Key(), entry+" panicked on generated Markdown: "+cg.Msg, cg.Stack, src)
 		return res
